@@ -295,6 +295,24 @@ def run(ctx, prefix="C03", set_explanation=True):
     prw = P.Prov(wl)
     wls = L.for_loops(wl, prw)
     okw = False
+    if not wls:
+        # iterator form: self.players.iter().filter(|p| p.<flag>).count() [as uN]
+        r = prw.local(0)
+        while r[0] == "cast":
+            r = r[2]
+        players_field = [i for i, f in enumerate(F.adts[SHOWDOWN]["variants"][0]["fields"]) if PLAYER in f["ty"]]
+        if r[0] == "call" and r[1].rsplit("::", 1)[-1] == "count" and r[2]:
+            flt = P.strip(r[2][0], calls=False)
+            if flt[0] == "call" and flt[1].rsplit("::", 1)[-1] == "filter" and len(flt[2]) == 2:
+                src_, ch_ = L.iterator_chain(flt[2][0])
+                clo = flt[2][1]
+                whole = P.strip(src_) == ("field", ("deref", ("param", 1)), players_field[0]) and not any(
+                    c.rsplit("::", 1)[-1] in ("skip", "take", "rev", "filter", "step_by") for c in ch_)
+                if whole and clo[0] == "agg" and clo[1].startswith("closure:"):
+                    cfn = F.fns.get(clo[1][len("closure:"):])
+                    if cfn is not None and not cfn.cfg.has_loops():
+                        ct = P.strip(P.Prov(cfn).local(0))
+                        okw = ct[0] == "field" and ct[2] == k and P.strip(ct[1]) == ("param", 2)
     if len(wls) == 1:
         lw = wls[0]
         srcw, chw = lw.chain()
